@@ -140,6 +140,24 @@ def run(ctx):
                 judge(ctx, matcher, {'k': alts, 'j': alts}, md, 'core-shared-list')
                 judge(ctx, matcher, {'k': [alts, alts], 'j': [[alts], alts]}, md, 'core-shared-nested-list')
                 ctx.count('filters_sharing_a_list_object', 2)
+    # numbers that do not order (NaN compares False with everything, itself included), infinities and the negative zero, as recorded
+    # values and as operator values, alone and inside lists of alternatives
+    odd = [float('nan'), float('inf'), float('-inf'), -0.0, 0.0, 5, 5.0, 2.5]
+    for o in ('=', '<', '<=', '>', '>=', '!='):
+        for fvn in odd:
+            for rvn in odd + [None, ABSENT, 'a', [float('nan')]]:
+                idx += 1
+                if not ctx.mine(idx):
+                    continue
+                judge(ctx, matcher, {'k': op(o, fvn)}, _md('k', rvn), 'core-unordered-numbers')
+                judge(ctx, matcher, {'k': [op(o, fvn), 'zzz']}, _md('k', rvn), 'core-unordered-numbers')
+                ctx.count('filters_with_unordered_numbers', 2)
+    for fvn in odd:
+        for rvn in odd:
+            idx += 1
+            if ctx.mine(idx):
+                judge(ctx, matcher, {'k': fvn}, _md('k', rvn), 'core-unordered-numbers')
+                judge(ctx, matcher, {'k': [fvn, None]}, _md('k', rvn), 'core-unordered-numbers')
     # keys are opaque names: a dotted key is a key, not a path into nested metadata
     for fv in ATOMS + [[None], [False, None], [1, None]]:
         for md in ({'k': {'x': 1}}, {'k': {'x': None}}, {'k.x': 1, 'k': {'x': 2}}, {'k': {'x': {'y': 'a'}}}, {}):
